@@ -172,8 +172,11 @@ package protocol
 
 // ---------------------------------------------------------------- relay
 
+// writes to the host are bounded in time: the packet loop does them itself, and while one blocks nobody sees the
+// client side end (KNOWN FINDING: no write deadline is set)
 //@ func receive
 //@   requires[C10] out != nil
+//@   site net.Conn.Write requires[C11] bounded: writeDeadline(out)
 //@   requires[C01] relay: out == #backend ==> #ccOK && !#errSent && !#closeOK
 //@   assigns #relayed, #connWrite, #connWriteTo, #connWrites
 //@   ensures[C06] atMostOnce: #connWrites == old(#connWrites) || (#connWrites == old(#connWrites) + 1 && #connWriteTo == out)
@@ -317,6 +320,9 @@ package protocol
 //@   ensures[C11] outClosed: r.Method == "RDG_IN_DATA" && old(t.transportIn) == nil && t.transportIn != nil && t.transportOut != nil ==> closed(t.transportOut)
 //@   ensures[C11] backendClosed: t.rwc != nil && t.rwc != old(t.rwc) ==> closed(t.rwc)
 //@   site (*Processor).Process requires[C01] oncePerTunnel: arg0.tunnel == t && arg0.gw == g && arg0.state == 0 && old(t.transportIn) == nil
+// the client's bytes on the incoming connection are consumed through the body reader only, which frames them;
+// a read on the raw connection underneath takes whatever segment arrives next (KNOWN FINDING: Drain does that)
+//@   site? net.Conn.Read requires[C08] framedOnly: arg0 != in.Conn
 //@   nopanic[C10]
 
 //@ func (*Gateway).HandleGatewayProtocol
